@@ -236,6 +236,15 @@ void harness(void)
 			r0 = sqfs_data_reader_read(rd, ino, off0, b0, n0);
 		else
 			r0 = sqfs_data_reader_get_fragment(rd, ino, &outsz, &out);
+#ifdef HIST3
+		/* a second arbitrary operation: the SAME query that is repeated at the
+		   end (covers "fails first, then hits a poisoned cache") or a fragment
+		   lookup through the final inode */
+		if (ND_BOOL())
+			(void)sqfs_data_reader_read(rd, iy, off, ba, n);
+		else
+			(void)sqfs_data_reader_get_fragment(rd, iy, &outsz, &out);
+#endif
 		ra = sqfs_data_reader_read(rd, iy, off, ba, n);
 		rf = sqfs_data_reader_read(fr, iy, off, bf, n);
 		VP_ASSERT(ra == rf, "C10: result of read() does not depend on earlier operations on the reader");
